@@ -90,7 +90,17 @@ def run(ctx):
         elif lk < 0.55:
             lock = b""
         elif lk < 0.62 and dirs:
-            lock = J(rng.choice(dirs)).encode()             # no newline
+            # no newline; preferably naming X where X minus its last character is an invocation too
+            # (the tenth and later invocations of a day: DATE.1 next to DATE.1x)
+            cand = [n for n in dirs if n[:-1] in dirs]
+            if not cand and rng.random() < 0.7:
+                nn = rng.choice(dirs) + str(rng.randint(0, 9))
+                if nn not in [e[0] for e in ents]:
+                    os.makedirs(os.path.join(root, nn))
+                    ents.append((nn, "d"))
+                    dirs.append(nn)
+                    cand = [nn]
+            lock = J(rng.choice(cand or dirs)).encode()
         elif lk < 0.7 and dirs:
             lock = (J(rng.choice(dirs))[:-1] + "\n").encode()  # a prefix of a real name
         if lock is not None:
